@@ -2,6 +2,7 @@ package receiver
 
 import (
 	"encoding/binary"
+	"io"
 
 	"github.com/gokrazy/rsync/internal/rsyncopts"
 	"github.com/gokrazy/rsync/internal/rsyncos"
@@ -25,7 +26,7 @@ func newRecvTransfer(fsys *vfsx.FS, conn *vconn, seed int32, opts *TransferOpts)
 		Opts:     opts,
 		Dest:     dest,
 		DestRoot: fsys.Root("."),
-		Env:      &rsyncos.Env{},
+		Env:      &rsyncos.Env{Stdout: io.Discard, Stderr: io.Discard},
 		Conn:     &rsyncwire.Conn{Reader: conn, Writer: conn},
 		Seed:     seed,
 	}
